@@ -13,8 +13,11 @@ SCALE = 1000
 DEFAULT_PPB = 1000
 
 
+_RUN = [None]
+
+
 def is_run(name):
-    return name.endswith('thread_manager::run')
+    return _RUN[0] is not None and name == _RUN[0]
 
 
 def rate_leaf(v):
@@ -79,10 +82,15 @@ def run(ctx, chk):
                        'start-up (R1-R3); the value then flows unchanged through run -> spawn closure -> shm_writer::run -> '
                        'ShmUpdater::new -> record field (R4).')
     mains = [b for b in fb.bodies() if b.name == 'main' and b.crate.kind == 'bin' and b.crate.name == 'clockbound']
-    if not mains:
-        chk.missing('C19.R1', 'main of the clockbound binary')
+    tmb0 = common.thread_manager(fb)
+    _RUN[0] = tmb0.path if tmb0 is not None else None
+    if not mains or tmb0 is None:
+        chk.missing('C19.R1', 'main of the clockbound binary / thread manager')
         return
     b = mains[0]
+    # which parameter of the manager is the drift rate: its only u32 parameter
+    u32s = [i for i in range(1, tmb0.argc + 1) if tmb0.tystr(tmb0.locals[i]['ty']) == 'u32']
+    drift_ix = (u32s[0] - 1) if len(u32s) == 1 else 0
     chk.saw(b)
     if prof == 'release':
         chk.ob('C19.R1', 'config:release-overflow-checks-off', b.crate.overflow_checks is False, b.where(0),
@@ -101,7 +109,7 @@ def run(ctx, chk):
                 opt = 'Some' if ((op == '==' and val == 1) or (op == '!=' and 0 in val)) else 'None'
         for ef in runs:
             n_run += 1
-            v = ef['args'][0]
+            v = ef['args'][drift_ix]
             ok, desc, rule = analyse_value(v, p.conds, asserts)
             if ok and opt == 'Some' and psi.is_int_const(v):
                 # the option was given: whatever constant is handed over instead of rate x 1000 is a silent substitution
@@ -205,14 +213,16 @@ def follow(fb, body, args, taint, trail, seen, depth=0):
 
 
 def flow_chain(fb, chk):
-    tm = [b for b in fb.bodies(common.DAEMON) if b.path.endswith('thread_manager::run')]
-    if not tm:
-        chk.missing('C19.R4', 'thread_manager::run')
+    tmb = common.thread_manager(fb)
+    if tmb is None:
+        chk.missing('C19.R4', 'thread manager')
         return False
-    tmb = tm[0]
     chk.saw(tmb)
-    taint = ('sym', tmb.debug_names.get(1, 'arg1'))
-    args = [taint] + [None] * (tmb.argc - 1)
+    u32s = [i for i in range(1, tmb.argc + 1) if tmb.tystr(tmb.locals[i]['ty']) == 'u32']
+    dix = u32s[0] if len(u32s) == 1 else 1
+    taint = ('sym', tmb.debug_names.get(dix, 'arg%d' % dix))
+    args = [None] * tmb.argc
+    args[dix - 1] = taint
     r = follow(fb, tmb, args, taint, [], frozenset())
     chk.ob('C19.R4', 'flow:manager->updater-constructor', r is not None, tmb.where(0),
            'the drift value passed to thread_manager::run reaches a constructor unchanged via %s' % (' -> '.join(x.split('::')[-1] for x in r[2]) if r else 'NO PATH FOUND'))
